@@ -312,6 +312,15 @@ def same_package_order(ma, mb):
     return by_pkg(ma) == by_pkg(mb)
 
 
+def soft(ctx, msg, observed=None):
+    """A self-check of the machinery failed. Without any observed violation the run is inconclusive; once violations were
+    observed they are reported (exit 1) and the failed self-check becomes a NOTE: exit 2 must never hide a detection."""
+    if ctx.failures or observed:
+        ctx.notes.append("self-check failed (violations are reported all the same): " + msg)
+        return
+    raise core.Inconclusive(msg)
+
+
 def run(ctx):
     pc.java_tmp(ctx)
     quick = ctx.quick()
@@ -477,7 +486,7 @@ def run(ctx):
     timeouts = sorted(r["id"] for r in runs if r.get("timeout"))
     missing = [j["id"] for j in plan.jobs if j["id"] not in res]
     if missing and not timeouts:
-        raise core.Inconclusive("worker returned %d of %d runs" % (len(res), len(plan.jobs)))
+        soft(ctx, "worker returned %d of %d runs" % (len(res), len(plan.jobs)))
     for n in missing:       # not run after repeated watchdog timeouts: left out of every comparison
         del plan.meta[n]
 
@@ -595,7 +604,8 @@ def run(ctx):
         descs = mmeta[r["id"]]
         pkg = pkg_name(descs[0])
         if any(p["err"] for p in r["parts"]):
-            raise core.Inconclusive("merge corpus: an input does not load on its own: %s" % [p["err"] for p in r["parts"]])
+            soft(ctx, "merge corpus: an input does not load on its own: %s" % [p["err"] for p in r["parts"]])
+            continue
         parts = [p["packages"].get(pkg, {}).get("objects", {}) for p in r["parts"]]
         counts["MergeIsUnionOrConflict"] += 1
         union, collide = {}, False
@@ -634,7 +644,7 @@ def run(ctx):
     if len(effective) < 12 and not ctx.failures:
         raise core.Inconclusive("merge corpus: only %d of %d one-attribute redefinitions change the loaded definition: %s" % (len(effective), len(PERTURBATIONS), effective))
     if perturb_seen.get("identical"):
-        raise core.Inconclusive("merge corpus: the same input loaded twice gives two different definitions")
+        soft(ctx, "merge corpus: the same input loaded twice gives two different definitions")
     if (merged_ok == 0 or conflicts == 0) and not ctx.failures:
         raise core.Inconclusive("merge corpus vacuous: %d unions, %d conflicts" % (merged_ok, conflicts))
 
@@ -660,7 +670,7 @@ def run(ctx):
     veneer_steps = 0
     for r in ires:
         if r.get("err") and not r.get("timeout"):
-            raise core.Inconclusive("immutability corpus entry %s does not run: %s" % (r["id"], r["err"]))
+            soft(ctx, "immutability corpus entry %s does not run: %s" % (r["id"], r["err"]))
         if r.get("timeout"):
             ctx.notes.append("immutability corpus entry %s: a chain did not return (watchdog); the steps before it are judged" % r["id"])
         for s in r["steps"]:
@@ -710,15 +720,15 @@ def run(ctx):
     if tlc_pairs != py_pairs:
         only_tlc = sorted(tlc_pairs - py_pairs)[:5]
         only_py = sorted(py_pairs - tlc_pairs)[:5]
-        raise core.Inconclusive("PipelineTrace and the oracle disagree: only TLC %s, only oracle %s" % (only_tlc, only_py))
+        soft(ctx, "PipelineTrace and the oracle disagree: only TLC %s, only oracle %s" % (only_tlc, only_py))
     py_single = {(f["replay"].get("entry", "") + "/" + f["replay"].get("step", ""), "InputsNeverMutated") for f in ctx.failures
                  if f["replay"].get("clause") == "InputsNeverMutated" and f["signature"].endswith("/schemas")}
     if {x for x in tlc_single if x[1] == "InputsNeverMutated"} != py_single:
-        raise core.Inconclusive("PipelineTrace and the oracle disagree on InputsNeverMutated")
+        soft(ctx, "PipelineTrace and the oracle disagree on InputsNeverMutated")
     py_merge = sorted({f["replay"]["id"] for f in ctx.failures if f["replay"].get("clause") == "MergeIsUnionOrConflict"})
     tlc_merge = sorted(x[0] for x in tlc_single if x[1] == "MergeIsUnionOrConflict")
     if tlc_merge != py_merge:
-        raise core.Inconclusive("PipelineTrace and the oracle disagree on MergeIsUnionOrConflict: TLC %s, oracle %s" % (tlc_merge[:8], py_merge[:8]))
+        soft(ctx, "PipelineTrace and the oracle disagree on MergeIsUnionOrConflict: TLC %s, oracle %s" % (tlc_merge[:8], py_merge[:8]))
 
     # binding self-test (Strict): a genuine pair is accepted, the same pair with one language hash corrupted is rejected
     ok_pair = None
@@ -739,7 +749,7 @@ def run(ctx):
         bad[1]["files"][common[0]] = "corrupted"
         r_bad, _ = pc.validate_trace(ctx, bad, inputs_table, strict=True, allow_violation=True)
         if r_ok["violated"] or not r_bad["violated"]:
-            raise core.Inconclusive("binding self-test failed: genuine pair rejected=%s, corrupted pair rejected=%s" % (r_ok["violated"], r_bad["violated"]))
+            soft(ctx, "binding self-test failed: genuine pair rejected=%s, corrupted pair rejected=%s" % (r_ok["violated"], r_bad["violated"]))
         selftest = "PipelineTrace(Strict) accepts two genuine runs with overlapping language sets and rejects them once one language hash is corrupted"
 
     for k, v in nontrivial.items():
